@@ -217,6 +217,15 @@ def render {σ ν} (g : Gen σ ν) (s0 : σ) (split : Int) (template : List Char
     | .error e => .error e
     | .ok (atops, _) => .ok (strKids (atops.filter ATree.isDocLevel)).2
 
+/-- what is found in the output directory afterwards: `open(filename, 'w')` truncates, so of several writes under one
+    name only the last one survives -/
+def disk {ν} [DecidableEq ν] : List (File ν) → ν → Option (List Tok)
+  | [], _ => none
+  | f :: fs, n =>
+    match disk fs n with
+    | some c => some c
+    | none => if f.1 = n then some f.2 else none
+
 /-- a generator for the driver: the k-th request gets the name `f<k>`; it dies at request number `dieAt` -/
 def counterGen (dieAt : Option Nat) : Gen Nat String :=
   { next := fun k _ => if dieAt = some k then .error .valueError else .ok (s!"f{k}", k + 1) }
